@@ -40,6 +40,13 @@ def _dest_before(call, var="xpdu"):
     return None
 
 
+def _sent_var(call, default="xpdu"):
+    """the local name handed to the send call (an inlined helper's local is spelled xpdu__N)"""
+    if call.args and isinstance(call.args[0], ast.Name):
+        return call.args[0].id
+    return default
+
+
 def _ctor_of(f, call, var="xpdu"):
     """the constructor call whose result is the variable sent by `call` (nearest preceding assignment in source order)"""
     best = None
@@ -56,7 +63,7 @@ def _matrix(ctx, c, f, pdu, klass):
     at = _addr_types(ctx)
     res = {"up": [], "bdt": [], "fdt": [], "local": [], "other": []}
     for x in _arm_calls(f, pdu, klass, ev, "response"):
-        k = _ctor_of(f, x)
+        k = _ctor_of(f, x, _sent_var(x))
         kw = {a.arg: norm(a.value) for a in k.keywords} if k is not None else {}
         fa = facts_at(x)
         res["up"].append({"ctor": norm(k.func) if k is not None else None, "source": kw.get("source"), "destination": kw.get("destination"),
